@@ -14,7 +14,7 @@ RULE = (
     "alone (flipped from its default), all DUMP_* on, everything flipped, and seeded random subsets; with "
     "DUMP_SCHEDULER_STATE the dump interval is 0 so the dump code really runs; with COLLECT_PERF_STATS a scripted clock "
     "assigned to asynq.scheduler.utime reports per-call elapsed times from 1 microsecond to 3 hours. Diagnostics go to a "
-    "captured file descriptor. Oracle: the complete harness event log (every task step, yield, resumption, flush "
+    "captured file descriptor. One program in three makes every one of its runs on a brand-new thread (fresh thread-local scheduler and profiler state, no profiler.reset() first). Oracle: the complete harness event log (every task step, yield, resumption, flush "
     "composition and order, context pause/resume, value received, caught exception, and whether get_active_task() is the running task at every step and after every nested sync call) and the outcome must be identical "
     "to the default run, on both builds. Reach: per option, runs in which it produced diagnostic output / profiler "
     "entries. distinct = (program hash, option subset); non-trivial = at least 2 task instances and 1 flush."
@@ -141,7 +141,26 @@ def _after_sync_probe(rt, fr, ok):
     rt.emit("active_task_after_sync_call_is_me", fr.path, mine is not None and t is mine)
 
 
-def run_once(prog, how, seed, settings, clock, outfile):
+def run_once(prog, how, seed, settings, clock, outfile, in_thread=False):
+    """One run of the program under the given option settings. in_thread: on a brand-new thread (fresh
+    thread-local scheduler / profiler state, no profiler.reset() beforehand), as a worker thread would run it."""
+    if in_thread:
+        import threading
+
+        box = []
+
+        def target():
+            try:
+                box.append(("ok", run_once(prog, how, seed, settings, clock, outfile, in_thread=None)))
+            except BaseException as e:  # harness trouble: re-raised on the calling thread
+                box.append(("err", e))
+
+        th = threading.Thread(target=target)
+        th.start()
+        th.join()
+        if box[0][0] == "err":
+            raise box[0][1]
+        return box[0][1]
     import asynq
     import asynq.scheduler as S
     from asynq import profiler
@@ -152,7 +171,8 @@ def run_once(prog, how, seed, settings, clock, outfile):
     saved_int = opts.SCHEDULER_STATE_DUMP_INTERVAL
     old_utime = S.utime
     size0 = os.fstat(outfile).st_size
-    profiler.reset()
+    if in_thread is False:
+        profiler.reset()
     try:
         for k, v in settings.items():
             setattr(opts, k, v)
@@ -203,8 +223,12 @@ def run_unit(unit, progress):
         rnd = random.Random(cs)
         prog = gen.generate(cs, PROFILE)
         how = ["call", "value", "yielded", "yielded_value"][i % 4]
-        rt0, out0, _n, _s = run_once(prog, how, cs, dict(DEFAULTS), None, fd)
-        rt0b, out0b, _n, _s = run_once(prog, how, cs, dict(DEFAULTS), None, fd)
+        # one program in three runs - under every option setting - on a brand-new thread each time
+        thr = i % 3 == 1
+        if thr:
+            inc("programs_run_on_fresh_threads")
+        rt0, out0, _n, _s = run_once(prog, how, cs, dict(DEFAULTS), None, fd, in_thread=thr)
+        rt0b, out0b, _n, _s = run_once(prog, how, cs, dict(DEFAULTS), None, fd, in_thread=thr)
         res["evaluations"] += 2
         base = trace_of(rt0, out0)
         if trace_of(rt0b, out0b) != base:
@@ -233,7 +257,7 @@ def run_unit(unit, progress):
             if settings.get("COLLECT_PERF_STATS"):
                 big = rnd.random() < 0.6
                 clock = Clock(random.Random(cs ^ 0xC10C), big)
-            rt, out, nbytes, nstats = run_once(prog, how, cs, settings, clock, fd)
+            rt, out, nbytes, nstats = run_once(prog, how, cs, settings, clock, fd, in_thread=thr)
             res["evaluations"] += 1
             flipped = [k for k in BOOL_OPTIONS if settings[k] != DEFAULTS[k]]
             inc("option_subsets_run")
